@@ -281,7 +281,7 @@ impl KotoVm {
     /// Runs the provided [Chunk], returning the resulting [KValue]
     pub fn run(&mut self, chunk: Ptr<Chunk>) -> Result<KValue> {
         // Set up an execution frame to run the chunk in
-        let frame_base = self.next_register();
+        let frame_base = self.new_frame_base()?;
         self.registers.push(KValue::Null); // Instance register
         self.push_frame(
             chunk,
@@ -356,7 +356,7 @@ impl KotoVm {
             return unexpected_type("Function", &function);
         }
 
-        let result_register = self.next_register();
+        let result_register = self.new_frame_base()?;
         self.registers.push(KValue::Null); // Result register
 
         let args = match (&args, &function) {
@@ -375,7 +375,7 @@ impl KotoVm {
             _ => args,
         };
 
-        let frame_base = self.next_register();
+        let frame_base = self.new_frame_base();
         self.registers.push(instance.unwrap_or_default()); // Frame base
 
         let arg_count = match args {
@@ -392,6 +392,16 @@ impl KotoVm {
                 // then at this point it needs to be stored in a KTuple.
                 self.registers.push(KValue::Tuple(Vec::from(args).into()));
                 1
+            }
+        };
+
+        // All of the registers that were prepared for the call need to be addressable
+        // relative to the current frame.
+        let frame_base = match (frame_base, self.new_frame_base()) {
+            (Ok(frame_base), Ok(_)) => frame_base,
+            (Err(error), _) | (_, Err(error)) => {
+                self.truncate_registers(result_register);
+                return Err(error);
             }
         };
 
@@ -445,8 +455,7 @@ impl KotoVm {
     pub fn run_unary_op(&mut self, op: UnaryOp, value: KValue) -> Result<KValue> {
         let old_frame_count = self.call_stack.len();
 
-        let result_register = self.next_register();
-        let value_register = result_register + 1;
+        let [result_register, value_register] = self.next_registers()?;
 
         self.registers.push(KValue::Null); // `result_register`
         self.registers.push(value); // `value_register`
@@ -499,9 +508,7 @@ impl KotoVm {
     pub fn run_binary_op(&mut self, op: BinaryOp, lhs: KValue, rhs: KValue) -> Result<KValue> {
         let old_frame_count = self.call_stack.len();
 
-        let result_register = self.next_register();
-        let lhs_register = result_register + 1;
-        let rhs_register = result_register + 2;
+        let [result_register, lhs_register, rhs_register] = self.next_registers()?;
 
         self.registers.push(KValue::Null); // Result register
         self.registers.push(lhs);
@@ -594,9 +601,7 @@ impl KotoVm {
     ) -> Result<KValue> {
         let old_frame_count = self.call_stack.len();
 
-        let result_register = self.next_register();
-        let container_register = result_register + 1;
-        let read_arg_register = result_register + 2;
+        let [result_register, container_register, read_arg_register] = self.next_registers()?;
 
         self.registers.push(KValue::Null); // Result register
         self.registers.push(container);
@@ -630,10 +635,12 @@ impl KotoVm {
     ) -> Result<KValue> {
         let old_frame_count = self.call_stack.len();
 
-        let result_register = self.next_register();
-        let container_register = result_register + 1;
-        let write_arg_register = result_register + 2;
-        let write_value_register = result_register + 3;
+        let [
+            result_register,
+            container_register,
+            write_arg_register,
+            write_value_register,
+        ] = self.next_registers()?;
 
         self.registers.push(KValue::Null); // Result register
         self.registers.push(container);
@@ -3128,7 +3135,7 @@ impl KotoVm {
 
         // The caller instance is in the frame base register,
         // and then arguments start from register frame_base + 1.
-        let call_arg_base_index = self.register_index(call_info.frame_base + 1);
+        let call_arg_base_index = self.register_index(call_info.frame_base) + 1;
         let expected_arg_count = f.expected_arg_count();
 
         // Ensure that any temporary registers used to prepare the call args have been removed
@@ -3748,9 +3755,15 @@ impl KotoVm {
         self.register_base + register as usize
     }
 
-    // Returns the register id that corresponds to the next push to the value stack
-    fn next_register(&self) -> u8 {
-        (self.registers.len() - self.register_base) as u8
+    // Returns the register ids that correspond to the next `N` pushes to the value stack
+    fn next_registers<const N: usize>(&self) -> Result<[u8; N]> {
+        let first = self.registers.len() - self.register_base;
+        let mut result = [0; N];
+        for (i, register) in result.iter_mut().enumerate() {
+            *register = u8::try_from(first + i)
+                .map_err(|_| Error::from("Overflow of the current frame's register stack"))?;
+        }
+        Ok(result)
     }
 
     // Sets the register, which must already be available in the stack
